@@ -892,6 +892,121 @@ def gen_mutant(rng, head, depth=5):
     return finish(ir, depth), ops
 
 
+# ------------------------------------------------- C10: regression corpus
+
+# Input classes behind every mechanism that was found and repaired (known_findings.json,
+# status fixed). Witness texts with placeholders that are expanded over small pools, so that
+# each class is exercised in several spellings; `regress_cases` also nests every variant in
+# a few host forms. %EMPTY% = a form that compiles to no code, %STMT% = a form that compiles
+# to statements without an expression, %FALSY% = a falsy literal model, %CONST% = None/True/
+# False in ASCII and in compatibility spellings.
+REGRESS_POOLS = {
+    "%EMPTY%": ["(do)", "(eval-when-compile 1)", "(pragma :warn-on-core-shadow False)", "(do (do))", "(import)"],
+    "%STMT%": ["(setv z 1)", "(del z)", "(for [q w] 1)", "(annotate z T)", "(+= z 1)", "(import a)"],
+    "%FALSY%": ['""', "[]", "0", "{}", "#()", 'b""', "0.0", "()"],
+    "%CONST%": ["None", "True", "False", fullwidth("True"), fullwidth("None"),
+                "\U0001d405\U0001d41a\U0001d425\U0001d42c\U0001d41e"],
+    "%WILD%": [fullwidth("_")],
+}
+REGRESS = {
+    "dict-display-odd-or-misaligned": ["{1}", '{#** a "k"}', '{"k" #** a 1}', "{a b c}", "(f {x})"],
+    "chainc-without-operator": ["(chainc x)", "(chainc (f x))"],
+    "unpack-mapping-in-comparison": ["(< #** m 1)", "(chainc a < #** b)", "(= a #** b c)", "(in #** a b)",
+                                     "(is-not a #** b)"],
+    "unpack-mapping-misplaced": ["[a #** b]", "#(a #** b)", "#{#** b}", "(get a b #** c)", "(defn [#** a] f [])",
+                                 "(try 1 (except [[E #** a]] 2))"],
+    "unpack-mapping-arity": ["(f (unpack-mapping))", "{(unpack-mapping)}", "(.m obj (unpack-mapping))",
+                             "(f (unpack-mapping a b))", "{(unpack-mapping a b)}"],
+    "annotate-sequence-or-starred-target": ["(annotate [] T)", "(annotate #* c T)", "(setv #^ T [a b] 1)",
+                                            "(annotate #(a b) T)", "(let [#^ T [a b] c] a)"],
+    "augassign-sequence-or-starred-target": ["(+= [a] 1)", "(@= #(y) k)", "(>>= #* a b)", "(-= [a b] 1 2)"],
+    "fcomponent-value-without-expression": ['f"{%STMT%}"', 'f"a{%STMT% !r :>4}b"'],
+    "assert-falsy-message-model": ["(assert x %FALSY%)"],
+    "module-level-nonlocal-of-defined-name": ["(do (setv a 1) (nonlocal a))", "(do (setv a 1 b 2) (nonlocal b a))"],
+    "deftype-constant-name": ["(deftype %CONST% x)"],
+    "type-parameter-constant-name": ["(fn :tp [%CONST%] [a] a)", "(deftype :tp [#* %CONST%] T x)",
+                                     "(defn :tp [#** %CONST%] f [])", "(defclass :tp [%CONST%] foo)"],
+    "type-parameter-falsy-bound-model": ["(defn :tp [#^ %FALSY% T] f [])", "(deftype :tp [#^ %FALSY% K] T K)",
+                                         "(defclass :tp [#^ %FALSY% T] foo)"],
+    "match-or-pattern-with-fewer-than-two-alternatives": ["(match x (| 1) 2)", "(match x (|) 2)", "(match x [(| y)] 2)",
+                                                          '(match x {"k" (| 1)} 2)'],
+    "match-class-pattern-on-constant-base": ["(match x (.foo 1) 2)", "(match x (%CONST% 1) 2)", "(match x (... 1) 2)"],
+    "match-capture-constant-name": ["(match x [#* %CONST%] 1)", '(match x {"a" 1 #** %CONST%} 1)',
+                                    "(match x (foo :%CONST% 1) 1)", "(match x %CONST% 1)",
+                                    "(match x [1 b] :as %CONST% 2)"],
+    "match-guard-without-expression": ["(match x y :if %STMT% 2)", "(match x 1 2 y :if %STMT% 3)"],
+    "match-value-pattern-not-an-attribute-lookup": ["(match x (. T) 1)", "(match x (. None a) 1)"],
+    "match-wildcard-in-compatibility-spelling": ["(match v %WILD% 1)", "(match v (foo 1 %WILD%) 2)",
+                                                 "(match v [#* %WILD%] 1)", '(match v {"k" %WILD%} 3)'],
+    "match-mapping-rest-wildcard": ['(match m {"k" x #** _} 1)', "(match m {#** _} 1)", '(match m {"k" x #** %WILD%} 1)'],
+    "match-mapping-without-rest-in-comprehension": ['(lfor x [(match d {"k" a} 1)] x)',
+                                                    '(gfor x [(match d {"k" a "j" b} 1)] x)'],
+    "comprehension-part-without-expression": ["(lfor x y %EMPTY%)", "(lfor x %EMPTY% x)", "(lfor x y :if %EMPTY% x)",
+                                              "(dfor x y %EMPTY% 1)", "(dfor x y 1 %EMPTY%)", "(sfor x y %EMPTY%)",
+                                              "(gfor x y %EMPTY%)", "(lfor x y :setv z %EMPTY% z)",
+                                              "(for [x %EMPTY%] 1)"],
+    "position-taken-from-empty-result": ["(assert %EMPTY% (do y (setv y 2)))", "(setv :chain [b] %EMPTY%)",
+                                         "(for [x %EMPTY%] (setv y x))"],
+    "try-finally-without-statements": ["(try 1 (finally %EMPTY%))", "(try (f) (finally %EMPTY% %EMPTY%))"],
+    "for-body-compiling-to-nothing": ["(for [x y] %EMPTY%)", "(for [x y] %EMPTY% %EMPTY%)",
+                                      "(for [:async x y] %EMPTY%)", "(for [x y] %EMPTY% (else 1))"],
+    "import-empty-name-list": ["(import foo [])", "(import .. [])", "(import a b [] c)"],
+    "constant-in-compatibility-spelling-as-value": ["(is %CONST% None)", "(setv x %CONST%)", "(f :k %CONST%)",
+                                                    "[%CONST% %CONST%]"],
+}
+REGRESS_HOSTS = ["%W%", "(do %W%)", "(fn [] %W%)", "(f %W% 1)", "[%W%]", "(setv r %W%)", "(if c %W% None)",
+                 "(defn g [p] %W% p)", "(try %W% (except [E] 1))", "(when c (g) %W%)", "(defclass foo [] %W%)",
+                 "(with [o (f)] %W%)"]
+_regress_cache = []
+
+
+def regress_corpus():
+    """[(key, ir)]: every witness variant, alone and inside each host form (cached)."""
+    if _regress_cache:
+        return _regress_cache
+    import hy  # noqa: F401
+    from hy.reader import read_many
+
+    def expand(text):
+        for ph, pool in REGRESS_POOLS.items():
+            if ph in text:
+                out = []
+                for v in pool:
+                    out.extend(expand(text.replace(ph, v, 1)))
+                return out
+        return [text]
+
+    seen = set()
+    for key, texts in REGRESS.items():
+        variants = [v for t in texts for v in expand(t)]
+        for vi, v in enumerate(variants):
+            # every variant alone, and in three hosts that rotate with the variant index
+            hosts = [REGRESS_HOSTS[0]] + [REGRESS_HOSTS[1 + (vi * 3 + k) % (len(REGRESS_HOSTS) - 1)] for k in range(3)]
+            for h in hosts:
+                text = h.replace("%W%", v)
+                if text in seen:
+                    continue
+                seen.add(text)
+                try:
+                    forms = list(read_many(text, filename="<regress>"))
+                except Exception:
+                    continue
+                if len(forms) == 1:
+                    _regress_cache.append((key, finish(enc(forms[0]), 5)))
+    # shapes only a model constructor can make
+    for host in (lambda x: x, lambda x: seq("FStr", [STR("a"), x]), lambda x: E(S("f"), seq("FStr", [x]))):
+        for conv in (None, "r"):
+            _regress_cache.append(("fcomponent-without-value", host(seq("FComp", [], conv=conv))))
+    for kids in ([I(1)], [S("a"), S("b"), S("c")], [E(S("unpack-mapping"), S("a")), STR("k")]):
+        _regress_cache.append(("dict-display-odd-or-misaligned", seq("Dict", kids)))
+        _regress_cache.append(("dict-display-odd-or-misaligned", E(S("f"), seq("Dict", kids))))
+    return _regress_cache
+
+
+def regress_keys():
+    return sorted(set(REGRESS) | {"fcomponent-without-value"})
+
+
 # ---------------------------------------------------- C10: shape signature
 
 def shape(j):
